@@ -58,6 +58,10 @@ CLAIMED = {
          L("is_complete, is_semicomplete, is_tournament, is_regular, is_balanced, is_symmetric, is_oriented, is_simple, is_subdigraph, is_superdigraph, is_spanning_subdigraph on five representations and relabelled non-contiguous AdjacencyMap digraphs, with generators aimed at near misses (size-preserving non-tournaments, one-pair / one-arc perturbations, foreign arc or vertex).", "order <= 40/90, CPU count 1..16."),
          "Order-0 digraphs are not exercised.",
          "DESIGN.md section 4, C12"),
+ "C13": ("generated API programs (systematic sweep of every entry point x argument class + proptest random programs) executed in child processes built with AddressSanitizer and std's unsafe-precondition checks; crash isolation by journalled re-run; counting-allocator leak meter (growth must scale with 8/16/32 repetitions)",
+         L("every public entry point is called with vertex arguments in range, = order, = order+1, 1000 and usize::MAX on 21 base digraphs (all six representations, three non-contiguous AdjacencyMap vertex sets), alone (sweep) and in random programs of 1..6 calls; each call must return or unwind, the digraph must stay structurally valid and usable after a panic, and no call may grow the live heap in proportion to its repetitions.", "base order <= 8, <= 6 calls; sweep is exhaustive over its stated entry-point x argument-class table."),
+         "Trusts AddressSanitizer + the unsafe-precondition checks to turn out-of-bounds accesses into aborts (in-allocation overreads that neither detects can be missed; the Miri replay leg narrows that gap for the committed corpus). Any unwinding panic counts as the documented panic. Allocation-heavy arguments are excluded; OOM is exit 2.",
+         "DESIGN.md section 4, C13"),
  "C14": (ENUM + " of the parameter box + " + PBT + " for larger orders; oracle: closed-form arc sets",
          L("every deterministic generator at every order in the box, in four representations and several CPU counts, is compared with the closed form written from the property text; the representations must agree; inadmissible parameters must panic.", "orders 0..96 (quick) / 0..200 (thorough) exhaustively, (m, n) up to 24/40 squared, random orders up to 300/600."),
          "Trusts closed_form() in harness/src/model.rs as a transcription of the property.",
